@@ -60,8 +60,12 @@ func (ex *Exec) callCommon(g *G, fr *Frame, cc *ssa.CallCommon, fnv Value, args 
 	}
 	if f.Native != nil {
 		if f.Native.Visible {
-			g.pending = &VisOp{Kind: "native:" + f.Native.Name, Simple: true,
+			op := &VisOp{Kind: "native:" + f.Native.Name, Simple: true,
 				Fire: func() { done(f.Native.Call(ex, g, args)) }}
+			if f.Native.Objs != nil {
+				op.ObjIDs = f.Native.Objs()
+			}
+			g.pending = op
 			return
 		}
 		done(f.Native.Call(ex, g, args))
